@@ -74,6 +74,73 @@ def differential(res, ddp, model, programs, cfgs, label, max_report=3):
     return st
 
 
+def error_origin_programs(quick=True):
+    """two modules that use different built-in Laufzeitfehler messages; the error fires in one of them; the modules
+    contain different numbers of other constants (text literals) before that. (label, files): behaviour is compared
+    across configurations only"""
+    H = 'Binde "Duden/Ausgabe" ein.\n'
+    decl = {"index": "Die Zahlen Liste %sl ist eine Liste, die aus 10, 20, 30 besteht.\n", "slice": "Die Zahlen Liste %sl ist eine Liste, die aus 10, 20, 30 besteht.\n",
+            "cast": "Die Variable %sv ist 7.\nDie Variable %sw ist wahr.\n", "todo": "Die Zahl %sz ist 1.\n"}
+    use = {"index": "Schreibe (%sl an der Stelle 2) auf eine Zeile.\n", "cast": "Schreibe (%sv als Zahl) auf eine Zeile.\n",
+           "slice": "Schreibe (die Länge von (%sl im Bereich von 1 bis 2)) auf eine Zeile.\n",
+           "todo": "Wenn %sz gleich 11 ist, dann:\n\t...\n"}
+    fire = {"index": "Schreibe (%sl an der Stelle 9) auf eine Zeile.\n", "cast": "Schreibe (%sw als Zahl) auf eine Zeile.\n",
+            "slice": "Schreibe (die Länge von (%sl im Bereich von 3 bis 1)) auf eine Zeile.\n", "todo": "...\n"}
+
+    def fill(t, pre):
+        return t % tuple([pre] * t.count("%s"))
+
+    def tab(src):
+        return "".join("\t" + l + "\n" for l in src.rstrip("\n").split("\n"))
+
+    def texts(pre, n):
+        return "".join('Der Text %st%d ist "%s%d".\n' % (pre, i, pre, i) for i in range(n))
+    out = []
+    k = 0
+    for a in use:
+        for b in fire:
+            if a == b:
+                continue
+            shapes = [(k % 3, (k // 3) % 3)] if quick and not (a, b) in (("cast", "index"), ("index", "todo")) else [(i, j) for i in range(3) for j in range(3)]
+            k += 1
+            for nm, nl in shapes:
+                # the imported module fires b, the main module has used a before
+                lib = H + texts("m", nl) + ("Die öffentliche Funktion loese_aus gibt nichts zurück, macht:\n" + tab(fill(decl[b], "m") + fill(fire[b], "m")) +
+                                            "Und kann so benutzt werden:\n\t\"löse aus\"\n")
+                main = (H + 'Binde "lib" ein.\n' + texts("h", nm) + fill(decl[a], "h") + fill(use[a], "h") +
+                        'Schreibe 1 auf eine Zeile.\nlöse aus.\nSchreibe 2 auf eine Zeile.\n')
+                out.append(("error-origin:lib-fires-%s:main-uses-%s:%d-%d" % (b, a, nm, nl), {"lib.ddp": lib, "main.ddp": main}))
+                # the main module fires b, the imported module uses a (in a function that is called first)
+                lib2 = H + texts("m", nl) + ("Die öffentliche Funktion benutze gibt nichts zurück, macht:\n" + tab(fill(decl[a], "m") + fill(use[a], "m")) +
+                                             "Und kann so benutzt werden:\n\t\"benutze es\"\n")
+                main2 = (H + 'Binde "lib" ein.\n' + texts("h", nm) + fill(decl[b], "h") + 'benutze es.\nSchreibe 1 auf eine Zeile.\n' + fill(fire[b], "h") +
+                         'Schreibe 2 auf eine Zeile.\n')
+                out.append(("error-origin:main-fires-%s:lib-uses-%s:%d-%d" % (b, a, nm, nl), {"lib.ddp": lib2, "main.ddp": main2}))
+    return out
+
+
+def plain_differential(res, ddp, labelled, cfgs, st):
+    jobs = [(files, cfg, {}) for _, files in labelled for cfg in cfgs]
+    outs = pipeline.farm(ddp, jobs)
+    k = len(cfgs)
+    for i, (label, files) in enumerate(labelled):
+        rrs = outs[i * k:(i + 1) * k]
+        ref = rrs[0]
+        for cfg, rr in zip(cfgs, rrs):
+            res.evaluations += 1
+            st["%s:%s" % (cfg.name(), rr.cls)] += 1
+            res.nontrivial("%s:%s:%s" % (label, cfg.name(), rr.cls))
+            bad = None
+            if ref.cls not in ("ok", "laufzeitfehler"):
+                bad = "the program ends as %s under %s: %s" % (ref.cls, cfgs[0].name(), (ref.compile_out or ref.stderr)[-300:])
+            elif (rr.cls, rr.exit, rr.stdout, rr.stderr) != (ref.cls, ref.exit, ref.stdout, ref.stderr):
+                bad = "behaviour under %s differs from %s: %s/%s %r vs %s/%s %r" % (cfg.name(), cfgs[0].name(), rr.cls, rr.exit, rr.stderr[-160:], ref.cls, ref.exit, ref.stderr[-160:])
+            if bad:
+                res.violation("%s:%s" % (label, cfg.name()), bad, {"files": files, "program": files["main.ddp"], "config": cfg.name(), "reference_config": cfgs[0].name(),
+                                                                    "implementation": rr.as_dict(), "reference_run": ref.as_dict()})
+                break
+
+
 def check(res, tier):
     sd = seed()
     rng = Rng(sd)
@@ -100,13 +167,17 @@ def check(res, tier):
     for p in split:
         p["as_modules"] = True
     st4 = differential(res, ddp, model, split, cfgs, "random-two-modules")
+    st5 = Counter()
+    origin = error_origin_programs(quick)
+    plain_differential(res, ddp, origin, cfgs, st5)
     evalcorr.report_broken(res, broken)
-    res.extra.update({"configs": [c.name() for c in cfgs], "alias_matrix_programs": len(alias), "operator_matrix_batches": len(mprogs),
+    res.extra.update({"configs": [c.name() for c in cfgs], "alias_matrix_programs": len(alias), "error_origin_programs": len(origin), "outcomes_error_origin": dict(st5), "operator_matrix_batches": len(mprogs),
                       "operator_matrix_cells": nsingles, "random_programs": len(single), "random_two_module_programs": len(split),
                       "outcomes": {"alias": dict(st1), "operators": dict(st2), "random": dict(st3), "modules": dict(st4)}})
     res.rule = ("each program under every configuration (-O 0/1/2; modules linked into one LLVM module or compiled to objects of "
                 "their own; list definitions linked in or as object): stdout, stderr, exit status identical across configurations "
                 "and equal to the evaluator's verdict; programs: Referenz/value aliasing matrix incl. read-only (constant) "
-                "parameters, operator matrix with boundary operands, random programs, random programs split into two modules")
+                "parameters, operator matrix with boundary operands, random programs, random programs split into two modules, every "
+                "pair of built-in Laufzeitfehler kinds with one used in one module and the other firing in the other module")
     res.assumptions += ["'kept separate' is realised by the verif hook compiler.VerifCompileSeparate (no kddp command line compiles an "
                         "imported module on its own); LLVM's passes and the system linker are trusted, not modelled"]
